@@ -5,12 +5,12 @@ from ..apigen import File
 from . import c11_util as U
 
 RULE = ("APIs drawn from a grammar: package out of 8 shapes (0..3 namespace segments, v1/v1beta1/v1p1beta1/no version), 1-2 target "
-        "files, 1-3 services with 1-6 RPCs whose names come from a pool with Python keywords in every letter case, leading "
+        "files, 1-3 services with 1-6 RPCs (plus services that declare no RPC, alone or next to ordinary ones) whose names come from a pool with Python keywords in every letter case, leading "
         "underscores, digits/acronyms and names shared between services; request messages with 0-6 fields (reserved words, random "
         "REQUIRED flags) or non-proto-plus requests (google.iam/longrunning/protobuf); transports grpc, rest, grpc+rest; "
         "optionally a service YAML marking some RPCs internal (selective generation, generate_omitted_as_internal). "
         "A case is one (request, option string, yaml); distinct = distinct canonical hash of the serialized request+options; "
-        "non-trivial = at least one service with one RPC. T2 cases only build gapic's schema, e2e cases run the generator, "
+        "non-trivial = at least one service. T2 cases only build gapic's schema, e2e cases run the generator, "
         "parse gapic_metadata.json / METHOD_TO_PARAMS with json/ast and import the emitted package in a child process.")
 TRUSTED = [
     "Model/Metadata.v (gapic_metadata, client/method naming, legacy_flattened_fields, jinja2 sort/unique of the fix-up template) and "
@@ -57,9 +57,15 @@ def meta_api(r, defect_case=False):
     svc_names = r.sample(["Library", "Catalog", "Admin", "FleetOps", "IAMWatcher"], nsvc)
     msg_i = 0
     all_rpcs = []
+    if defect_case == "empty":
+        svc_names = ["Placeholder"] if r.random() < 0.5 else ["Placeholder"] + svc_names[:2]
+    elif r.random() < 0.25:
+        svc_names = svc_names + [r.choice(["Placeholder", "Reserved"])]
     for si, sname in enumerate(svc_names):
         f = files[si % nfiles]
         svc = f.service(sname, host="meta.example.com", scopes="https://www.googleapis.com/auth/cloud-platform")
+        if sname in ("Placeholder", "Reserved"):
+            continue        # a service that declares no rpc: legal, the generator emits its clients
         names = list(dict.fromkeys(r.sample(RPC_POOL, r.randint(1, 6))))
         if defect_case == "unsafe" and si == 0:
             names = list(dict.fromkeys(TRANSPORT_UNSAFE + names))[:5]
@@ -177,6 +183,8 @@ def extra_features(case, d):
     if unordered:
         out.append("request fields not in field-number order")
     names = {x["name"] for s in d["svcs"] for x in s["rpcs"]}
+    if any(not s["rpcs"] for s in d["svcs"]):
+        out.append("service without rpcs")
     if names & set(TRANSPORT_UNSAFE):
         out.append("transport-unsafe rpc name")
     if len({n.lower() for n in names}) < len(names):
@@ -192,8 +200,9 @@ def svcs_term(d):
 
 
 def flatten_metadata(md):
-    """JSON/dict form of GapicMetadata -> sorted [(service, kind, client, rpc, method)] + sorted service names (fail-closed)."""
-    ents = []
+    """JSON/dict form of GapicMetadata -> sorted [(service, kind, client, rpc, method)], sorted service names,
+    sorted [(service, kind, client)] (fail-closed)."""
+    ents, clis = [], []
     services = md.get("services", {})
     if not isinstance(services, dict):
         raise ValueError("services is not an object")
@@ -201,10 +210,15 @@ def flatten_metadata(md):
         clients = services[sn].get("clients", {})
         for kind in sorted(clients):
             c = clients[kind]
+            clis.append((sn, kind, c.get("libraryClient", "")))
             for rn in sorted(c.get("rpcs", {})):
                 for meth in c["rpcs"][rn].get("methods", []):
                     ents.append((sn, kind, c.get("libraryClient", ""), rn, meth))
-    return ents, sorted(services)
+    return ents, sorted(services), clis
+
+
+def clients_term(clis):
+    return coq.lst(f"({coq.s(a)}, {coq.s(b)}, {coq.s(c)})" for a, b, c in clis)
 
 
 def entries_term(ents):
@@ -248,19 +262,20 @@ def run_t2(ctx, cases):
         if any(not x["pp"] for s in d["svcs"] for x in s["rpcs"]):
             feats.append("non-proto-plus-request")
         feats += extra_features(c, d)
-        ctx.case({"t2": c["tag"], "request": env.canon_hash(c)}, nontrivial=nr > 0, feature=feats)
+        ctx.case({"t2": c["tag"], "request": env.canon_hash(c)}, nontrivial=bool(d["svcs"]), feature=feats)
         if "error" in o:
             ctx.oblige(f"T2 {c['tag']}: gapic builds the schema", False, o["detail"][-500:])
             continue
         S, T = svcs_term(d), coq.slist(d["transports"])
         try:
-            ents, snames = flatten_metadata(o["metadata"])
+            ents, snames, clis = flatten_metadata(o["metadata"])
         except Exception as e:  # noqa
             ctx.oblige(f"T2 {c['tag']}: shape of gapic_metadata", False, repr(e))
             continue
         lab = c["tag"]
         checks.append((f"{lab}: metadata entries", f"list_eqb entry_eqb (metadata_entries {T} {S}) {entries_term(ents)}"))
         checks.append((f"{lab}: metadata services", f"list_eqb String.eqb (metadata_services {S}) {coq.slist(snames)}"))
+        checks.append((f"{lab}: metadata client entries (service x kind -> client)", f"list_eqb client_eqb (metadata_clients {T} {S}) {clients_term(clis)}"))
         checks.append((f"{lab}: library package",
                        f"String.eqb (library_package false {coq.slist(d['namespace'])} {coq.s(d['name'])} {coq.s(d['version'])}) "
                        f"{coq.s(o['metadata'].get('libraryPackage', ''))}"))
@@ -348,7 +363,7 @@ def run_e2e(ctx, cases, label="e2e"):
         ci_clash = len({n.lower() for n in rpc_names}) < len(set(rpc_names))
         feats = [f"e2e transport={'+'.join(d['transports'])}"] + (["e2e internal"] if c.get("yaml") else []) + (["e2e letter-case clash"] if ci_clash else [])
         feats += ["e2e " + x for x in extra_features(c, d)]
-        ctx.case({"e2e": env.canon_hash(case)}, nontrivial=bool(rpc_names), feature=feats)
+        ctx.case({"e2e": env.canon_hash(case)}, nontrivial=bool(d["svcs"]), feature=feats)
         if res is None:
             ctx.violation(f"generation failed ({gen.error_kind(err)}): no gapic_metadata.json / fix-up script at all", case)
             continue
@@ -362,13 +377,15 @@ def run_e2e(ctx, cases, label="e2e"):
         # ---- T1: artefacts vs model ----
         try:
             md = json.loads(files[mfiles[0]])
-            ents, snames = flatten_metadata(md)
+            ents, snames, clis = flatten_metadata(md)
             m2p = read_method_to_params(files[ffiles[0]])
         except Exception as e:  # noqa
             ctx.oblige(f"T1 {lab}: extraction of gapic_metadata.json / METHOD_TO_PARAMS", False, repr(e), "T1")
             continue
         checks.append((f"{lab}: emitted gapic_metadata.json entries", f"list_eqb entry_eqb (metadata_entries {T} {S}) {entries_term(ents)}"))
         checks.append((f"{lab}: emitted gapic_metadata.json services", f"list_eqb String.eqb (metadata_services {S}) {coq.slist(snames)}"))
+        checks.append((f"{lab}: emitted gapic_metadata.json client entries (service x kind -> client)",
+                       f"list_eqb client_eqb (metadata_clients {T} {S}) {clients_term(clis)}"))
         checks.append((f"{lab}: emitted libraryPackage",
                        f"String.eqb (library_package false {coq.slist(d['namespace'])} {coq.s(d['name'])} {coq.s(d['version'])}) {coq.s(md.get('libraryPackage', ''))}"))
         checks.append((f"{lab}: emitted METHOD_TO_PARAMS",
@@ -510,6 +527,7 @@ def run(ctx):
     cases = corpus + [c for c in (make_case("C15-t2", i) for i in range(n2)) if c]
     cases += [c for c in (make_case("C15-t2-ci", i, True) for i in range(ctx.n(3, 20))) if c]
     cases += [c for c in (make_case("C15-t2-unsafe", i, "unsafe") for i in range(ctx.n(3, 20))) if c]
+    cases += [c for c in (make_case("C15-t2-empty", i, "empty") for i in range(ctx.n(4, 24))) if c]
     checks = run_t2(ctx, cases) + run_strings(ctx, ctx.n(150, 1500))
     failing, errors, nf = evaluate(ctx, "c15t2", checks, "T2")
     ctx.oblige(f"T2 model = gapic schema objects (gapic_metadata, client/method names, legacy_flattened_fields, snake/module names) "
@@ -519,6 +537,7 @@ def run(ctx):
     e2e = corpus + [c for c in (make_case("C15-e2e", i) for i in range(ne)) if c]
     e2e += [c for c in (make_case("C15-e2e-ci", i, True) for i in range(ctx.n(1, 4))) if c]
     e2e += [c for c in (make_case("C15-e2e-unsafe", i, "unsafe") for i in range(ctx.n(2, 8))) if c]
+    e2e += [c for c in (make_case("C15-e2e-empty", i, "empty") for i in range(ctx.n(3, 10))) if c]
     checks = run_e2e(ctx, e2e)
     failing, errors, nf = evaluate(ctx, "c15t1", checks, "T1")
     ctx.oblige(f"T1 emitted gapic_metadata.json, METHOD_TO_PARAMS and emitted class/def names = model output "
